@@ -1,4 +1,5 @@
 import re
+import unicodedata
 import uuid
 from abc import ABC, abstractmethod
 from collections.abc import Callable, Mapping, Sequence
@@ -282,4 +283,10 @@ def clean_id(value: str) -> str:
     if not value:
         return "_"
 
-    return _PY_VALID_ID_RE.sub("_", value)
+    # the compiler NFKC-normalizes identifiers, so the name must be normalized
+    # the same way to be found in the namespace it is registered in
+    value = _PY_VALID_ID_RE.sub("_", unicodedata.normalize("NFKC", value))
+    if not value.isidentifier():
+        # "\w" also matches characters that can not be part of an identifier
+        value = "".join(c if f"_{c}".isidentifier() else "_" for c in value)
+    return value
